@@ -2683,6 +2683,12 @@ where
     ) -> Vec<GenericEvent<PacketIdType>> {
         let mut events = Vec::new();
 
+        if self.status == ConnectionStatus::Connected {
+            // a second CONNACK on an established connection is a protocol violation ([MQTT-3.2.0-2])
+            Self::handle_v3_1_1_error(MqttError::ProtocolError, &mut events);
+            return events;
+        }
+
         match v3_1_1::Connack::parse(raw_packet.data_as_slice()) {
             Ok((packet, _consumed)) => {
                 if packet.return_code() == ConnectReturnCode::Accepted {
@@ -2710,6 +2716,12 @@ where
         raw_packet: RawPacket,
     ) -> Vec<GenericEvent<PacketIdType>> {
         let mut events = Vec::new();
+
+        if self.status == ConnectionStatus::Connected {
+            // a second CONNACK on an established connection is a protocol violation ([MQTT-3.2.0-2])
+            self.handle_v5_0_error(MqttError::ProtocolError, &mut events);
+            return events;
+        }
 
         match v5_0::Connack::parse(raw_packet.data_as_slice()) {
             Ok((packet, _consumed)) => {
